@@ -424,7 +424,25 @@ func (w *witness) evalBV(t *Term, salt int) (uint64, bool) {
 	return 0, false
 }
 
+func flattenAnd(ts []*Term) []*Term {
+	var out []*Term
+	var rec func(t *Term)
+	rec = func(t *Term) {
+		if t.op == "and" {
+			rec(t.args[0])
+			rec(t.args[1])
+			return
+		}
+		out = append(out, t)
+	}
+	for _, t := range ts {
+		rec(t)
+	}
+	return out
+}
+
 func tryWitness(ts []*Term) *witness {
+	ts = flattenAnd(ts) // an asserted conjunction is its conjuncts (so that an equation inside one can be repaired)
 	for salt := 0; salt < 2; salt++ {
 		w := &witness{reals: map[int]*big.Rat{}, bools: map[int]bool{}, bvs: map[int]uint64{}, memo: map[int]*big.Rat{}}
 		// Boolean variables asserted as literals get the asserted polarity
@@ -461,7 +479,7 @@ func tryWitness(ts []*Term) *witness {
 			// an asserted equation between Real terms that fails at the generic point: move ONE variable in which the
 			// equation is affine (all others keep their values) to its root, then evaluate everything again. The result is
 			// still an explicit point at which every assertion is checked exactly, so only `sat` is ever concluded.
-			if repairs >= 6 || !w.repair(failed, salt, pinned) {
+			if repairs >= 12 || !w.repair(failed, salt, pinned) {
 				break
 			}
 		}
